@@ -35,7 +35,7 @@ FullText(fs) == Flatten([j \in 1..Len(fs) |-> FullToks[fs[j]]])
 ClassFullLen == EnvInt("C19_CLSFULL", IF Quick THEN 4 ELSE 5)
 MaxClassLen == EnvInt("C19_CLS", IF Quick THEN 6 ELSE 7)
 FullFullLen == EnvInt("C19_FULLFULL", IF Quick THEN 2 ELSE 3)
-MaxFullLen == EnvInt("C19_FULL", IF Quick THEN 4 ELSE 5)
+MaxFullLen == EnvInt("C19_FULL", IF Quick THEN 3 ELSE 4)
 
 \* ---------------- single-token mutations of valid texts --------------------------------------------
 TS(ss) == [j \in 1..Len(ss) |-> U(ss[j])]
@@ -281,22 +281,24 @@ StrPred(v, ir, d) ==
    rt |-> IF s.o = "value" /\ s.v.k = "str" THEN JParse(s.v.u, d) ELSE JNone]
 StrOK(r, pr) == OutMatches(r.out, pr.out) /\ OutMatches(r.rt, pr.rt)
 StrRel(v) == LET sr == SerRel(v) IN sr \cup (IF DevNonFinite \in sr THEN {DevParseConstants, DevParseEscapes} ELSE {})
-\* smallest explaining subset (any one of minimal size)
-Smallest(S) == CHOOSE x \in S : \A y \in S : Cardinality(x) <= Cardinality(y)
+\* the explaining subsets of minimal size, as sequences (the caller reports the one whose deviations are all listed)
+Alts(S) == IF S = {} THEN <<>>
+           ELSE LET least == CHOOSE n \in 1..Cardinality(AllDevs) : (\E x \in S : Cardinality(x) = n) /\ (\A y \in S : Cardinality(y) >= n)
+                IN SX!SetToSeq({SX!SetToSeq(x) : x \in {y \in S : Cardinality(y) = least}})
 Verdict(r) ==
   IF r.kind = "parse"
   THEN LET ref == ParsePred(r.t, {}) IN
-       IF ParseOK(r, ref) THEN [v |-> "pass", devs |-> <<>>, exp |-> JNone]
+       IF ParseOK(r, ref) THEN [v |-> "pass", alts |-> <<>>, exp |-> JNone]
        ELSE LET S == ParseExplain(r, ref.out) IN
-            [v |-> "mismatch", devs |-> IF S = {} THEN <<>> ELSE SX!SetToSeq(Smallest(S)), exp |-> ref]
+            [v |-> "mismatch", alts |-> Alts(S), exp |-> ref]
   ELSE LET v == Unshare(r.v) IN
-       IF ~JWellFormed(v, 0) THEN [v |-> "unsupported", devs |-> <<>>, exp |-> JNone]
+       IF ~JWellFormed(v, 0) THEN [v |-> "unsupported", alts |-> <<>>, exp |-> JNone]
        ELSE LET ref == StrPred(v, r.ir, {}) IN
-            IF StrOK(r, ref) THEN [v |-> "pass", devs |-> <<>>, exp |-> JNone]
+            IF StrOK(r, ref) THEN [v |-> "pass", alts |-> <<>>, exp |-> JNone]
             ELSE LET S == {d \in SUBSET StrRel(v) : d # {} /\ StrOK(r, StrPred(v, r.ir, d))} IN
-                 [v |-> "mismatch", devs |-> IF S = {} THEN <<>> ELSE SX!SetToSeq(Smallest(S)), exp |-> ref]
+                 [v |-> "mismatch", alts |-> Alts(S), exp |-> ref]
 JudgeInit == /\ rec_i \in 1..Len(Recs) /\ ph = "judge" /\ cur = <<>>
              /\ LET r == Recs[rec_i]  vd == Verdict(r)
-                IN PrintT(ToJson([id |-> r.id, v |-> vd.v, devs |-> vd.devs, exp |-> vd.exp]))
+                IN PrintT(ToJson([id |-> r.id, v |-> vd.v, alts |-> vd.alts, exp |-> vd.exp]))
 JudgeNext == UNCHANGED vars
 =============================================================================
